@@ -1164,13 +1164,13 @@ func genBind(rng *vh.Rng, n int, emit func(id string, sel int, in []int64, kind 
 	tr := rng.Fork()
 	for i := 0; i < max(4, n/50); i++ {
 		b := readdReleasingCase(tr.Fork())
-		emit(fmt.Sprintf("bind-readd-releasing-%d", i), 2, b.enc(), "bind/cache/readd-releasing", true,
+		emit(fmt.Sprintf("bind-readd-releasing-%d", i), 2, b.enc(), "bind/cache/readd-releasing", b.eventThenBind(itRemoveNode),
 			map[string]any{"directed": "node holding a terminating pod removed and re-added, then a bind that fits only into the terminating pod's room", "items": len(b.Items)})
 	}
 	ur := rng.Fork()
 	for i := 0; i < max(4, n/50); i++ {
 		b := termInFlightCase(ur.Fork())
-		emit(fmt.Sprintf("bind-term-inflight-%d", i), 2, b.enc(), "bind/cache/term-inflight", true,
+		emit(fmt.Sprintf("bind-term-inflight-%d", i), 2, b.enc(), "bind/cache/term-inflight", b.eventThenBind(itTermUnbound),
 			map[string]any{"directed": "bind in flight, its still unbound pod object gets a deletionTimestamp, then a bind that fits only into its room", "items": len(b.Items)})
 	}
 }
@@ -1240,4 +1240,38 @@ func readdReleasingCase(r *vh.Rng) bindCase {
 	}
 	b.Items = append(b.Items, item{Kind: itNode, Node: b.Nodes[0]}, item{Kind: itBind, Bind: [3]int64{1, 2, 1}}, item{Kind: itBind, Bind: [3]int64{1, 3, 1}})
 	return b
+}
+
+// eventThenBind (non-triviality of the directed event families, computed from the case): an event of
+// the kind touches a node that holds something -- directly (node removed while a pod of the spec is on
+// it) or through a pod whose call to that node precedes the event -- and a call to the same node follows.
+func (b bindCase) eventThenBind(kind int64) bool {
+	for i, it := range b.Items {
+		if it.Kind != kind {
+			continue
+		}
+		node := int64(0)
+		if kind == itRemoveNode {
+			for _, t := range b.Tasks {
+				if t.Node == it.Task && t.Status != sched.SPending {
+					node = it.Task
+				}
+			}
+		} else {
+			for _, e := range b.Items[:i] {
+				if e.Kind == itBind && e.Bind[1] == it.Task {
+					node = e.Bind[2]
+				}
+			}
+		}
+		if node == 0 {
+			continue
+		}
+		for _, e := range b.Items[i+1:] {
+			if e.Kind == itBind && e.Bind[2] == node {
+				return true
+			}
+		}
+	}
+	return false
 }
